@@ -52,6 +52,7 @@ class Member:
         self.theta = theta            # family param -> ('ty', AST over member params); missing = same index
         self.row = row                # per key: payload AST (over member params) | None (wildcard: bound without binding)
         self.nparams = nparams        # number of member params (indices 0..n-1)
+        self.const_params = set()     # indices that are declared `const X: usize` (used as ('ep', i) in the header)
         self.names = names or PNAMES[:nparams]
         self.decl_order = decl_order or list(range(nparams))
         self.inline = inline or {}    # key index -> bool (bound written inline on the param when possible)
@@ -153,6 +154,9 @@ class Plan:
             if p in eliminated:
                 continue
             bs = inline.get(p, [])
+            if p in m.const_params:
+                decl.append(f"const {names[p]}: usize")
+                continue
             decl.append(names[p] + (": " + " + ".join(bs) if bs else ""))
         generics = "<" + ", ".join(decl) + ">" if decl else ""
         wh = " where " + ", ".join(where) if where else ""
@@ -195,10 +199,12 @@ class Plan:
                 out.append(f'{vis}fn {name}(&self) -> &\'static str {{ "{tag}" }}')
             elif kind == "ltfn":
                 out.append(f"{vis}fn {name}(x: &'a u8) -> &'a u8 {{ x }}")
+            elif kind == "ufn":
+                out.append(f'{vis}unsafe fn {name}() -> &\'static str {{ "{tag}" }}')
             elif kind == "pfn":
                 fi = self.blocks()[bi][0]
                 n = self.families[fi].nparams
-                args = ", ".join(f"_a{i}: Option<&{m.names[i]}>" for i in range(n))
+                args = ", ".join(f"_a{i}: Option<&{m.names[i]}>" if i not in m.const_params else f"_a{i}: Option<&[u8; {m.names[i]}]>" for i in range(n))
                 out.append(f'{vis}fn {name}({args}) -> &\'static str {{ "{tag}" }}')
         return out
 
@@ -306,6 +312,8 @@ class Plan:
                     lines.append(f'  print!(" {{}}", <{ty}>::{name});')
                 elif kind == "fn":
                     lines.append(f'  print!(" {{}}", <{ty}>::{name}());')
+                elif kind == "ufn":
+                    lines.append(f'  print!(" {{}}", unsafe {{ <{ty}>::{name}() }});')
                 elif kind == "pfn":
                     n = max(f.nparams for f in self.families)
                     lines.append(f'  print!(" {{}}", <{ty}>::{name}({", ".join(["None"] * self.notes.get("pfn_arity", n))}));')
@@ -666,6 +674,8 @@ class PlanGen:
         for p in m.unsized:
             if self.r.random() < 0.7:
                 rho[p] = ("ty", leaf(self.pick(["str", "[u8]"])))
+        for p in m.const_params:
+            rho[p] = ("ex", ("lit", self.pick(["1", "2", "3"])))
         self_ty, targs, th = plan.member_header(f, m)
         q = pr(subst(self_ty, rho))
         qargs = [pr(subst(a, rho)) for a in targs]
@@ -1319,35 +1329,46 @@ class PlanGen:
         has_const = r.random() < 0.35
         has_lt = r.random() < 0.45
         two_lt = has_lt and r.random() < 0.5
-        decl = (["'a"] if has_lt else []) + (["'b"] if two_lt else []) + [f"A{i}" for i in range(ntp)] + (["const N: usize"] if has_const else [])
+        const_first = has_const and r.random() < 0.5       # `Wr<const N: usize, A0, ..>`: the const argument precedes the type arguments
+        const_param = has_const and r.random() < 0.5       # the blocks are generic over it (`impl<const X: usize, ..> Wr<{ X }, ..>`)
+        cdecl = ["const N: usize"] if has_const else []
+        decl = (["'a"] if has_lt else []) + (["'b"] if two_lt else []) + (cdecl if const_first else []) + [f"A{i}" for i in range(ntp)] + ([] if const_first else cdecl)
         fields = ", ".join((["&'a ()"] if has_lt else []) + (["&'b ()"] if two_lt else []) + [f"PhantomData<A{i}>" for i in range(ntp)])
         plan.inherent_ty = f"pub struct Wr<{', '.join(decl)}>({fields});"
-        nfam = self.pick([1, 1, 2])
+        nfam = 1 if const_param else self.pick([1, 1, 2])
         insts = []
         for fi in range(nfam):
             # instantiation of the type's parameters by the family header: params or concrete types / literals
             args = []
             nparams = 0
+            cpar = None
+            if const_param and const_first:
+                cpar = 0
+                nparams = 1
             for i in range(ntp):
                 if fi == 0 or r.random() < 0.6 or nparams == 0 and i == ntp - 1:
                     args.append(("aty", ("tp", nparams)))
                     nparams += 1
                 else:
                     args.append(("aty", leaf(self.pick(["u8", "u16"]))))
-            cargs = [("aconst", ("lit", str(1 + fi)))] if has_const else []
+            if const_param and not const_first:
+                cpar = nparams
+                nparams += 1
+            cargs = ([("aconst", ("ep", cpar))] if const_param else [("aconst", ("lit", str(1 + fi)))]) if has_const else []
             sig = repr((args, cargs))
-            if sig in insts or nparams == 0:
+            if sig in insts or nparams - (1 if const_param else 0) == 0:
                 continue
             # families must not overlap: differing const literal, or a concrete argument facing a different concrete one
             if fi > 0 and not has_const:
                 # make the first family concrete at a position where this one is concrete with another type
                 continue
             insts.append(sig)
-            self_ty = ("ctor", "Wr", ([("alt", "'a")] if has_lt else []) + ([("alt", "'b")] if two_lt else []) + args + cargs)
+            self_ty = ("ctor", "Wr", ([("alt", "'a")] if has_lt else []) + ([("alt", "'b")] if two_lt else []) + (cargs + args if const_first else args + cargs))
             nkeys = self.pick([1, 1, 2])
             keys, used = [], set()
+            tparams = [p_ for p_ in range(nparams) if p_ != cpar]
             for _ in range(nkeys):
-                p = r.randrange(nparams)
+                p = self.pick(tparams)
                 dt = r.randrange(len(plan.dtraits))
                 assoc = self.pick(plan.dtraits[dt].assocs)
                 if (p, dt, assoc) in used:
@@ -1365,6 +1386,8 @@ class PlanGen:
                 m = Member({}, row, nparams)
                 m.names = self.names(nparams)
                 m.decl_order = list(range(nparams))
+                if cpar is not None:
+                    m.const_params = {cpar}
                 if r.random() < 0.5:
                     r.shuffle(m.decl_order)
                 m.inline = {ki: r.random() < 0.6 for ki in range(len(keys))}
@@ -1382,6 +1405,13 @@ class PlanGen:
             for f in plan.families:
                 for m in f.members:
                     m.vis["pf"] = f.members[0].vis.get("NAME", "")
+        if r.random() < 0.45:
+            # fn qualifiers are an input dimension of their own: `pub unsafe fn`
+            plan.items.insert(1, ("ufn", "uraw", False))
+            for f in plan.families:
+                v_ = self.pick(["", "pub ", "pub ", "pub(crate) "])
+                for m in f.members:
+                    m.vis["uraw"] = v_
         if has_lt and use_ltfn:
             plan.items.append(("ltfn", "lt", False))
             for f in plan.families:
